@@ -22,10 +22,19 @@ struct Triv
     friend bool operator>=(const Triv& a, const Triv& b) { return a.v >= b.v; }
 };
 static_assert(std::is_trivially_copyable<Triv>::value, "");
+#if defined(ALTA)
+// all three tracked alternatives have DEFAULTED (trivial) copy/move assignment but registering constructors and destructors:
+// the variant's assignment layers may be trivial only if construction and destruction are trivial too
+typedef pl::TrivAssign<11> NT;
+typedef pl::TrivAssign<12> TH;
+typedef pl::TrivAssign<13> Big;
+static_assert(std::is_trivially_move_assignable<NT>::value && std::is_trivially_copy_assignable<NT>::value && !std::is_trivially_move_constructible<NT>::value && !std::is_trivially_destructible<NT>::value, "payload shape");
+#else
 //                    TAG PAD NT_MOVE TH_COPY TH_MOVE TH_ASSIGN
 typedef pl::Tracked<11, 0,  true,  false, false, false> NT;    // nothrow-movable, tracked
 typedef pl::Tracked<12, 0,  false, true,  true,  true>  TH;    // copy, move and assignment may throw
 typedef pl::Tracked<13, 16, true,  false, false, false> Big;   // larger, nothrow
+#endif
 
 // trivially destructible AND trivially copyable, but its converting constructor can throw (after having written the storage)
 struct TT
@@ -385,7 +394,7 @@ void alt_ops(HX& hx, const std::vector<int>& values)
     }
 }
 
-#ifdef ALTT
+#if defined(ALTT) || defined(ALTA)
 static bool tracked_alt(int) { return false; }             // both alternatives are trivially copyable: a move is a copy
 #else
 static bool tracked_alt(int index) { return index > 0; }   // every alternative but Triv records "moved-from"
@@ -543,6 +552,8 @@ int main(int argc, char** argv)
     std::string replay, inst =
 #if defined(ALTT)
         "altT";
+#elif defined(ALTA)
+        "altA";
 #elif defined(ALT6)
         "alt6";
 #else
